@@ -10,9 +10,9 @@ namespace PgVerif.Proofs.SrcTie.Wal
 open PgVerif.Generated
 theorem wal_WAL_MAGIC_16 : Src.wal.WAL_MAGIC_16 = 0xd113 := by decide
 theorem wal_WAL_MAGIC_15 : Src.wal.WAL_MAGIC_15 = 0xd110 := by decide
-theorem wal_WAL_MAGIC_14 : Src.wal.WAL_MAGIC_14 = 0xd10f := by decide
-theorem wal_WAL_MAGIC_13 : Src.wal.WAL_MAGIC_13 = 0xd10d := by decide
-theorem wal_WAL_MAGIC_12 : Src.wal.WAL_MAGIC_12 = 0xd109 := by decide
+theorem wal_WAL_MAGIC_14 : Src.wal.WAL_MAGIC_14 = 0xd10d := by decide
+theorem wal_WAL_MAGIC_13 : Src.wal.WAL_MAGIC_13 = 0xd106 := by decide
+theorem wal_WAL_MAGIC_12 : Src.wal.WAL_MAGIC_12 = 0xd101 := by decide
 theorem wal_WALPageSize : Src.wal.WALPageSize = 0x2000 := by decide
 theorem wal_XLogRecordSize : Src.wal.XLogRecordSize = 24 := by decide
 theorem wal_ShortHeaderSize : Src.wal.ShortHeaderSize = 24 := by decide
